@@ -10,6 +10,7 @@ LEVEL = "exploration"
 
 
 def cases(tier):
+    yield from oc.enum_examples(tier)  # slowest first
     yield from oc.enum_special(tier)
     yield from oc.enum_S1(tier)
     yield from oc.enum_S2(tier)
@@ -143,7 +144,7 @@ def run(ctx):
             uniq.append(d)
     evals = nsub = nontriv = 0
     shapes = set()
-    for n, viols, (ns, nnz) in ctx.pmap(run_case, uniq, chunksize=16):
+    for n, viols, (ns, nnz) in ctx.pmap(run_case, uniq, chunksize=1 if len(uniq) < 200 else 4):
         evals += n
         nsub += ns
         nontriv += int(nnz > 0)
